@@ -18,6 +18,17 @@ def do_case(ctx, inp):
     nc = len(p["bnds"])
     ids = inp.get("ids") or [f"x{j}" for j in range(nc)]
     g = real_poly(p, ids)
+    if inp.get("queried_first"):
+        # a polyhedron that has been asked something before it is reduced (point classification, a label-less re-wrap of the
+        # matrix): queries are queries — the reduction is that of the polyhedron as declared
+        try:
+            for q in inp["queried_first"]:
+                if q == "separable": g.separable(np.zeros(nc, dtype=np.int64))
+                elif q == "rewrap": pnd.ge_polyhedron(g)
+                elif q == "neglectable": g.neglectable_columns(np.zeros(nc + 1, dtype=np.int64))
+        except Exception:
+            ctx.tags["pre-query-raised"] += 1
+        ctx.tags["queried-before-reduction"] += 1
     if ctx.tags["call-did-not-return"] >= 3:
         ctx.skip("not run: three earlier calls did not return"); return
     def first_calls(limit):
@@ -177,4 +188,6 @@ def run(ctx):
             pool = ctx.rng.choice([list("zyxwvutsr"), ["x8", "x9", "x10", "x11", "x12", "x100", "x2", "x1", "x0"],
                                    ["b", "B", "a", "A", "c", "C", "d", "D", "e"], ["k3", "k1", "k2", "k0", "j9", "j1", "m5", "m4", "m0"]])
             case["ids"] = pool[:nc_] if ctx.rng.random() < 0.5 else ctx.rng.sample(pool, nc_)
+        if ctx.rng.random() < 0.15:
+            case["queried_first"] = ctx.rng.sample(["separable", "rewrap", "neglectable"], ctx.rng.randint(1, 2))
         do_case(ctx, case)
